@@ -18,6 +18,7 @@ int valid_write (string path, mixed who, string fn) { return 1; }
 int valid_override (string file, string efun_name) { return 1; }
 
 int hc_nop () { return 0; }
+int hc_fail () { error ("inside the handler's own catch\n"); return 0; }
 
 // sprintf ("%O", ob) applies this through safe_apply_master_ob: a generated program that defines safe_body ()
 // gets it called here, i.e. inside a safe apply made by an efun
@@ -31,7 +32,10 @@ string error_handler (mapping m, int caught) {
   string e = m["error"];
   if (handler_catches == 1 || handler_catches == 2) catch (hc_nop ());
   // mode 2: a handler that completes a catch () and then fails itself (a log file it cannot write ...); mode 3: fails at once
-  if (handler_catches >= 2) error ("error_handler failed\n");
+  // modes 4 / 5: an error inside a catch () of the handler itself (received by that catch - unless the error being
+  // handled is a limit error: then that catch re-raises and the handler is abandoned), then return / fail
+  if (handler_catches == 4 || handler_catches == 5) catch (hc_fail ());
+  if (handler_catches == 2 || handler_catches == 3 || handler_catches == 5) error ("error_handler failed\n");
   if (!stringp (e)) e = "?";
   VL ("#h " + (caught ? "caught " : "err ") + e);
   return "";
